@@ -325,7 +325,13 @@ pub async fn handle_srt_packet(
             //   routing has mostly moved off it.
             //
             // Only data packets have seq != None (control packets have MSB set).
-            if seq.is_some()
+            //
+            // Enhanced mode only: classic mode must reproduce the reference
+            // capacity-only selection for every packet, and it never refreshes the
+            // quality caches this override ranks by (they stay at 1.0, so the
+            // override would pin must-land traffic to the first connected link).
+            if !config_snap.mode.is_classic()
+                && seq.is_some()
                 && (critical_window.is_critical_now(packet_time_ms)
                     || srtla_protocol::is_srt_data_retransmit(pkt))
                 && let Some(best_idx) = srtla_core::priority::select_best_quality_idx(connections)
